@@ -174,6 +174,8 @@ def generate(rng, prop, tier):
             # it is not scheduled again until everybody else has finished or given up (a slow or suspended process)
             'stall': ({'c': rng.choice([i for i, r in enumerate(roles) if r in ('writer', 'overwriter', 'deleter')] or [0]),
                        'at': 'sql-commit' if f == 'sql' else 'rename'} if f != 'file' and rng.chance(0.15) else None),
+            # the clients live in different PID namespaces (containers sharing a volume): os.getpid() is 1 in each
+            'same_pid': rng.chance(0.1),
             'clients': clients, 'sseed': rng.below(1 << 30), 'kseed': rng.below(1 << 30),
             'sticky': rng.choice([0.2, 0.5, 0.8]), 'order': rng.choice(['sorted', 'permute'])}
 
@@ -274,6 +276,8 @@ def client_main(idx, case, root, ev_w, go_r):
                order_rng=PRNG(case['kseed'] + idx))
     fs.install()
     _random.seed(case['kseed'] * 7 + idx)
+    if case.get('same_pid'):
+        os.getpid = lambda: 1
     state = {}
     _send(ev_w, {'t': 'ready'})
     _wait(go_r)
@@ -841,7 +845,8 @@ def evidence_info(prop):
                 'deleter / discarder (deletes an absent key, then reads) / clearer (clear() of the whole archive, paired with '
                 'readers only: entries may go, a reader still never fails or sees a value never stored) / reader (get, get-with-default, in, len, keys, '
                 'iter, a half-consumed iterator that stays alive, items, values, cache.load) / opener, 1-3 operations each, every written value unique; clients that '
-                'have finished stay alive and idle until the run ends) executed under ONE seeded schedule: the scheduler picks which client performs its '
+                'have finished stay alive and idle until the run ends; in a tenth of the runs every client reports os.getpid() == 1, as '
+                'containers sharing a volume do) executed under ONE seeded schedule: the scheduler picks which client performs its '
                 'next intercepted file-system/SQL call (sticky bursts, context switches biased to right after '
                 'unlink/rmdir/rename/DML/each statement of an SQL script). Invoke/return events are stamped with the scheduler\'s global sequence number; '
                 'the history is checked: no reader/writer operation fails, every value read was stored for that key by '
